@@ -49,6 +49,20 @@ HENC_CASES = [
 ]
 
 
+# (prescribed names in document order, document): Namespaces in XML; an end tag closes every open element up to the matching one,
+# and the declarations of the closed elements go out of scope with them
+XNS_CASES = [
+    ("{}a|{}b|{}c|{urn:outer}p:d", "<a xmlns:p='urn:outer'><b xmlns:p='urn:inner'><c></b><p:d/></a>"),
+    ("{u}a|{}b|{}c|{u}d", "<a xmlns='u'><b xmlns=''><c/></b><d/></a>"),
+    ("{}a {u}p:x {}y|{u}p:b {u}p:z", "<a xmlns:p='u' p:x='1' y='2'><p:b p:z='3'/></a>"),
+    ("{}r|{}a|{}b|{}p:c", "<r><a xmlns:p='u'><b></a><p:c/></r>"),
+    ("{d}r|{e}a|{e}b|{e}c|{d}f", "<r xmlns='d'><a xmlns='e'><b><c></a><f/></r>"),
+    ("{}a|{}b|{v}p:c|{u}p:d", "<a xmlns:p='u'><b xmlns:p='v'><p:c/></b><p:d/></a>"),
+    ("{}a|{}b|{}c|{}d|{}q:e", "<a><b xmlns:q='w'><c><d></b><q:e/></a>"),
+    ("{}x {http://www.w3.org/XML/1998/namespace}xml:lang|{u}p:y", "<x xml:lang='en' xmlns:p='u'><p:y/></x>"),
+]
+
+
 # (prescribed hosts, context element or "-" for a document, input); "@" = the context element
 SHADOW_CASES = [
     ('div', '-', '<div><template shadowrootmode=open>x</template></div>'),
@@ -147,6 +161,9 @@ def run_kani_unit(name, tier):
     if name == 'b_henc':
         return _sweep(name, 'henc', ['%s\t%s' % c for c in HENC_CASES],
                       '%d documents x every 2-chunk split; EncodingIndicators raised vs the labels the WHATWG rules prescribe' % len(HENC_CASES))
+    if name == 'b_xns':
+        return _sweep(name, 'xns', ['%s\t%s' % c for c in XNS_CASES],
+                      '%d XML documents (prefix shadowing, default namespace un-declared, unclosed elements closed by an ancestor\'s end tag, unbound prefix, xml prefix): expanded names of all elements and attributes vs what Namespaces in XML prescribes' % len(XNS_CASES))
     if name == 'b_shadow':
         return _sweep(name, 'hshadow', ['%s\t%s\t%s' % c for c in SHADOW_CASES],
                       '%d template start tags (documents and fragments): hosts of the declarative shadow roots requested from the sink vs the hosts the WHATWG rule prescribes' % len(SHADOW_CASES))
